@@ -235,8 +235,7 @@ class Model:
                     # call has to run the body again
                     yield st._replace(fail=False), ("raised", 1), ()
                     return
-                e = self._env(st)
-                v = (e.cols, e.rows, e.xpx, e.ypx, e.q_area)
+                v = tval(st.e, self._env(st))
                 yield st._replace(tsc=(v, size)), (v, 1), ()
             else:
                 yield st, (st.tsc[0], 0), ()
@@ -249,12 +248,12 @@ class Model:
             if st.cached[a] is None and st.fail:
                 yield st._replace(fail=False), ("raised", 1), ()
             elif st.cached[a] is None:
-                v = (a, st.e)
+                v = cval(a, st.e)
                 c = list(st.cached)
-                c[a] = v
+                c[a] = (v,)             # boxed: the memoized value may itself be None
                 yield st._replace(cached=tuple(c)), (v, 1), ()
             else:
-                yield st, (st.cached[a], 0), ()
+                yield st, (st.cached[a][0], 0), ()
         elif k == "cached_inv":
             yield st._replace(cached=(None, None)), None, ()
         elif k == "fail_next":
@@ -275,7 +274,7 @@ class Model:
         for st in self.belief:
             for s2, pred, _ in self._op(st, op):
                 preds.append(pred)
-                if pred == obs:
+                if _norm(pred) == obs:
                     new.add(s2)
         if new:
             self.belief = new
@@ -289,14 +288,14 @@ class Model:
         tags = None      # the smallest set of outlived memos that explains the observation
         for st in sorted(self.belief, key=repr):
             for s2, pred, t in self._op(st, op, lenient=True):
-                if pred == obs and t:
+                if _norm(pred) == obs and t:
                     t = tuple(sorted(set(t)))
                     if tags is None or (len(t), t) < (len(tags), tags):
                         tags = t
         sig = dict(stale="+".join(tags) if tags else "no")
         k = op[0]
         if k in ("tsc", "cached") and preds:
-            want = preds[0]
+            want = _norm(preds[0])
             if "raised" in (obs[0], want[0]) and obs[0] != want[0]:
                 sig["how"] = "raised" if obs[0] == "raised" else "did-not-raise"
             elif obs[0] == want[0]:
@@ -310,9 +309,30 @@ class Model:
 
 
 def _norm(x):
+    """Comparable form of an observation / prediction; booleans are tagged (False == 0 in Python)."""
     if isinstance(x, (list, tuple)):
         return tuple(_norm(v) for v in x)
+    if isinstance(x, bool):
+        return ("bool", x)
     return x
+
+
+FALSY = (None, False, 0, ())
+
+
+def cval(arg, e):
+    """What the `cached` probe body returns for argument *arg* in environment *e*: argument 1 yields a
+    falsy value (None / False / 0 / ()), which is a result like any other and must be memoized."""
+    return (arg, e) if arg == 0 else FALSY[e % 4]
+
+
+def tval(e, env):
+    """What the `terminal_size_cached` probe body returns: falsy in environments 1 (None) and 3 (0)."""
+    if e == 1:
+        return None
+    if e == 3:
+        return 0
+    return (env.cols, env.rows, env.xpx, env.ypx, env.q_area)
 
 
 def _opname(op):
